@@ -14,7 +14,7 @@ import (
 // later operation on that object forever (no "non-OK status within bounded time").
 
 func init() {
-	register(&Rule{ID: "R09.8", Props: []string{"C09", "C19"}, Floor: 16,
+	register(&Rule{ID: "R09.8", Props: []string{"C09", "C19", "C18", "C04"}, Floor: 16,
 		Doc: "lock pairing: every Lock/RLock in mpx and rpc is matched by an Unlock/RUnlock (explicit or deferred) on every path to every return of the acquiring function",
 		Run: runR09_8})
 }
@@ -48,7 +48,16 @@ func mutexCall(call ssa.CallInstruction) (path, op string, ok bool) {
 
 func runR09_8(c *Ctx, r *R) {
 	n := 0
+	outer := r
 	for _, rel := range []string{"mpx", "rpc"} {
+		// a mutex of a pooled call/channel state that is left locked travels to the next user of the state (C18,
+		// and for rpc the next call hangs: C04); the client/server mutexes of mpx are C19's
+		props := []string{"C09", "C18", "C19"}
+		if rel == "rpc" {
+			props = []string{"C09", "C18", "C04"}
+		}
+		r := &R{c: c, rule: &Rule{ID: outer.rule.ID, Props: props}}
+		defer func() { outer.n += r.n }()
 		for _, fn := range c.SrcFuncs(rel) {
 			hasLock := false
 			for _, call := range callsIn(fn, false) {
